@@ -123,6 +123,21 @@ pub fn tsc_no_attrs_local(l: &syn::Local) -> String {
     tsc(&c)
 }
 
+/// Every statement of `b` and of all nested blocks.
+pub fn for_each_stmt_in_block<'a>(b: &'a syn::Block, f: &mut dyn FnMut(&'a syn::Stmt)) {
+    struct V<'a, 'f> {
+        f: &'f mut dyn FnMut(&'a syn::Stmt),
+    }
+    impl<'a, 'f> syn::visit::Visit<'a> for V<'a, 'f> {
+        fn visit_stmt(&mut self, s: &'a syn::Stmt) {
+            (self.f)(s);
+            syn::visit::visit_stmt(self, s);
+        }
+    }
+    use syn::visit::Visit;
+    V { f }.visit_block(b);
+}
+
 /// `if let P = S { A } else { B }` or its normal form `match S { P => { A }, _ => { B } }`.
 pub struct IfLet<'a> {
     pub pat: &'a syn::Pat,
